@@ -55,7 +55,8 @@ Rules == [
   dimunit1      |-> [hard |-> TRUE,  at |-> "T"],    \* unit of A1's first DIMENSION changed to one the tag's unit is not convertible to
   dimunit2      |-> [hard |-> TRUE,  at |-> "T"],
   ndims_missing |-> [hard |-> TRUE,  at |-> "A6"],   \* FEWER descriptors than data dimensions (one of two); the tag T2 still names units for both
-  ndims_none    |-> [hard |-> TRUE,  at |-> "A6"] ]  \* no descriptor at all
+  ndims_none    |-> [hard |-> TRUE,  at |-> "A6"],
+  dupticks      |-> [hard |-> FALSE, at |-> "D12"] ] \* two equal neighbouring ticks: ascending (not strictly), accepted by the API, conforming  \* no descriptor at all
 Breaches == DOMAIN Rules
 
 \* combinations that cannot be built together (they change the same attribute in incompatible ways)
@@ -64,6 +65,7 @@ Compatible(B) == /\ Cardinality(B \cap {"tagunit1", "tagunit2", "dimunit1", "dim
                  /\ ~({"offset_nounit", "tagunit1"} \subseteq B)
                  /\ ~({"offset_nounit", "dimunit1"} \subseteq B)
                  /\ ~({"ndims_missing", "ndims_none"} \subseteq B)
+                 /\ ~({"unsorted", "dupticks"} \subseteq B)
 
 \* breaches that can be taken back in place (the others delete something that cannot be re-created under the same id)
 Repairable == Breaches \ {"ndims_extra", "ndims_extra2", "nopositions", "featnodata", "featnodata2"}
